@@ -122,9 +122,15 @@ let record acc ~key ~nontrivial ~klass (sample : json Lazy.t) =
 
 let max_failures = 20
 let cur_index = ref (-1)
+(* the leading "[C01,C02]" tag of a failure text: the properties it speaks about *)
+let tag_of (what : string) = try String.sub what 0 (String.index what ']' + 1) with Not_found -> ""
+(* the cap is per (kind, property tag): a flood of failures of one kind, or about one group of properties, must not
+   hide a concrete violation of another *)
+let room acc kind what =
+  let t = tag_of what in
+  List.length (List.filter (fun f -> f.kind = kind && tag_of f.what = t) acc.failures) < max_failures
 let fail acc ~kind ~what (case : json) =
-  (* the cap is per kind: a flood of model mismatches must not hide a concrete violation of the specification *)
-  if List.length (List.filter (fun f -> f.kind = kind) acc.failures) < max_failures then
+  if room acc kind what then
     acc.failures <- { kind; what; case = JO [ "index", JI !cur_index; "input", case ] } :: acc.failures
 
 let result_json acc ~engine ~seed ~tier ~rule ~wall =
@@ -192,7 +198,7 @@ let with_child_acc (acc : acc) (f : acc -> unit) : int option =
     acc.evals <- acc.evals + a.evals;
     Hashtbl.iter (fun k () -> Hashtbl.replace acc.distinct k ()) a.distinct;
     List.iter (fun smp -> if acc.nsamples < 12 then (acc.samples <- smp :: acc.samples; acc.nsamples <- acc.nsamples + 1)) (List.rev a.samples);
-    List.iter (fun fl -> if List.length acc.failures < max_failures then acc.failures <- fl :: acc.failures) (List.rev a.failures);
+    List.iter (fun fl -> if room acc fl.kind fl.what then acc.failures <- fl :: acc.failures) (List.rev a.failures);
     Hashtbl.iter (fun k v -> bumpn acc k v) a.dist;
     acc.notes <- a.notes @ acc.notes;
     None
